@@ -81,7 +81,8 @@ def run_check(mod, pid, tier, seed, t0):
     # ---- B: proofs
     module = getattr(mod, 'MODULE', 'Flowdyn.Props.' + pid)
     theorems = list(getattr(mod, 'THEOREMS', []))
-    okB, blog = core.lake_build([module])
+    extra = list(getattr(mod, 'AUDIT_IMPORTS', []))
+    okB, blog = core.lake_build([module] + extra)
     if not okB:
         errs = [l for l in blog.split("\n") if 'error' in l][:20]
         say("[B] lake build %s FAILED:\n  %s" % (module, "\n  ".join(errs)))
@@ -99,7 +100,7 @@ def run_check(mod, pid, tier, seed, t0):
         broken.append(('proof', 'hygiene', "; ".join(bad)))
     aud = {}
     if okB:
-        aud = core.audit(pid, module, theorems)
+        aud = core.audit(pid, module, theorems, extra)
         for t, (ok, ax) in aud.items():
             if not ok:
                 broken.append(('proof', t, "axioms/availability: %s" % ax))
